@@ -33,7 +33,13 @@ def extra_plans(ctx, kinds_hist="GIKSA"):
          {"id": "hist-n2", "n": 2, "kinds": kinds_hist, "history": M.EDITS}]
     if ctx.thorough:
         p.append({"id": "hist-n3", "n": 3, "kinds": "GIKA", "history": M.EDITS})
-    return p + again_plans(ctx)
+    return p + again_plans(ctx) + combo_plans(ctx)
+
+
+def combo_plans(ctx):
+    """Two features together that the base plans only exercise separately: try ranges x payload tables before / in the
+    middle of the code x two switches on one payload."""
+    return [{"id": "combo-n2", "n": 2, "kinds": "TGIK", "layouts": ("first", "mid"), "tries": (1, False), "shared": True}]
 
 
 def again_plans(ctx, kinds="PTRXGIKS", reduced="TRXGIK", **kw):
@@ -72,7 +78,7 @@ def _payload_obj_desc(o):
     return ("other", n)
 
 
-def observe(ma, em, special=False):
+def observe(ma, em, special=False, alt=("blocks", "edges", "exc", "offsets")):
     """MethodAnalysis + EncodedMethod -> plain data (see ref/cfg.py)."""
     sweep = list(em.get_instructions_idx())
     obs = {"idx": [(o, i.get_length(), i.get_op_value()) for o, i in sweep], "blocks": []}
@@ -96,7 +102,67 @@ def observe(ma, em, special=False):
                         break
                 d["special"][idx] = (found, _payload_obj_desc(o) if o is not None else None)
         obs["blocks"].append(d)
+    obs["alt"] = _alt_entry_points(ma, em, sweep, alt) if alt else []
     return obs
+
+
+def _alt_entry_points(ma, em, sweep, topics):
+    """Other public routes to the facts the judges read; -> [(topic, what, message)] for every disagreement."""
+    out = []
+    bbs = ma.get_basic_blocks()
+    it = list(bbs.get())
+    if "blocks" in topics and (list(bbs.gets()) != it or [bbs[i] for i in range(len(bbs))] != it or list(iter(bbs)) != it \
+            or [bbs.get_basic_block_pos(i) for i in range(len(bbs))] != it):
+        out.append(("blocks", "list-forms", "BasicBlocks.get()/gets()/__getitem__/__iter__/get_basic_block_pos disagree"))
+    for b in it:
+        ins = list(b.get_instructions()) if "blocks" in topics else None
+        if ins is None:
+            pass
+        elif b.get_nb_instructions() != len(ins):
+            out.append(("blocks", "get_nb_instructions", "block %#x: get_nb_instructions()=%d, get_instructions() yields %d"
+                        % (b.get_start(), b.get_nb_instructions(), len(ins))))
+        if ins and (b.get_last() is not ins[-1] or b.get_last_length() != ins[-1].get_length()):
+            out.append(("blocks", "get_last", "block %#x: get_last()/get_last_length() is not the last instruction"
+                        % b.get_start()))
+        for off in ((b.get_start(), b.get_end() - 2) if "blocks" in topics else ()):
+            if bbs.get_basic_block(off) is not b:
+                out.append(("blocks", "get_basic_block", "get_basic_block(%#x) is not the block [%#x,%#x) that contains it"
+                            % (off, b.get_start(), b.get_end())))
+        if "edges" in topics and (b.get_next() != b.childs or b.get_prev() != b.fathers):
+            out.append(("edges", "get_next/get_prev", "block %#x: get_next()/get_prev() differ from childs/fathers"
+                        % b.get_start()))
+        ea = b.get_exception_analysis() if "exc" in topics else None
+        if ea is not None and all(h[2] is not None for h in ea.exceptions):
+            d = ea.get()
+            want = {"start": ea.start, "end": ea.end,
+                    "list": [{"name": h[0], "idx": h[1], "basic_block": h[2].get_name()} for h in ea.exceptions]}
+            if d != want:
+                out.append(("exc", "ExceptionAnalysis.get", "block %#x: ExceptionAnalysis.get() = %r, attributes say %r"
+                            % (b.get_start(), d, want)))
+        if ea is not None and ea not in ma.exceptions.gets():
+            out.append(("exc", "Exceptions.gets", "block %#x reports an ExceptionAnalysis that MethodAnalysis.exceptions "
+                        "does not hold" % b.get_start()))
+    if "offsets" in topics and len(sweep) <= 64:
+        bc = em.get_code().get_bc()
+        pos = 0
+        lst = list(em.get_instructions())
+        for n, (off, ins) in enumerate(sweep):
+            if off != pos or lst[n] is not ins:
+                out.append(("offsets", "get_instructions", "get_instructions_idx() offset %#x differs from the running sum "
+                            "of get_instructions() lengths %#x" % (off, pos)))
+                break
+            pos += ins.get_length()
+            if bc.off_to_pos(off) != n or bc.get_ins_off(off) is not ins or bc.get_instruction(0, off) is not ins:
+                out.append(("offsets", "off_to_pos/get_ins_off/get_instruction",
+                            "offset %#x (position %d): off_to_pos=%r, get_ins_off / get_instruction(off=) return %s"
+                            % (off, n, bc.off_to_pos(off), "the same object" if bc.get_ins_off(off) is ins else "another object")))
+                break
+    return out
+
+
+def alt_violations(mod, obs):
+    topics = getattr(mod, "ALT_TOPICS", ())
+    return [("alt-entry:%s" % what, msg) for topic, what, msg in obs.get("alt", ()) if topic in topics]
 
 
 def signature(obs):
@@ -142,6 +208,7 @@ def shards_common(ctx, plans, ship_parts=8, per_shard=40000):
         for i0 in range(len(al)):
             for r in range(parts):
                 s.append(("gen", pi, i0, r, parts))
+    s += [("big", name) for name in BIG]
     for name in shipped_names(ctx):
         parts = ship_parts if name.endswith("classes.dex") and ":" not in name else 1
         s += [("ship", name, k, parts) for k in range(parts)]
@@ -195,6 +262,13 @@ def enum_plan(plan, i0, r, parts):
                                 yield c
                     elif tcs is None:
                         yield b
+                    elif plan.get("hperms"):
+                        # every other order of the encoded_catch_handler_list entries (identity order = the base plans)
+                        for tries, share in tcs:
+                            for k in range(1, plan["hperms"]):
+                                c = M.retry(b, tries, share, k)
+                                if c is not None:
+                                    yield c
                     else:
                         for tries, share in tcs:
                             yield M.retry(b, tries, share)
@@ -221,8 +295,9 @@ def _judge_one(mod, acc, b, ma, em):
     if not R.same_listing(rm, R.from_bytes(code, b.dex_tries, b.dex_handlers)):
         acc.harness_error("generator and reference decoder disagree on %r" % (b.witness(),))
         return []
-    obs = observe(ma, em, special=getattr(mod, "SPECIAL", False))
-    viol = mod.judge(acc, rm, obs, b.layout, ma=ma, gen=True)
+    obs = observe(ma, em, special=getattr(mod, "SPECIAL", False), alt=getattr(mod, "ALT_TOPICS", ()))
+    viol = mod.judge(acc, rm, obs, b.layout, ma=ma, gen=True) + alt_violations(mod, obs)
+    acc.count("alt_entry_point_sweeps")
     f = R.features(rm)
     nt = len(obs["blocks"]) > 1 or bool(rm.tries)
     acc.n += 1
@@ -251,12 +326,12 @@ def _judge_again(mod, acc, b, vm, em, again):
             if again.get("dx") is None:
                 again["dx"] = Analysis(vm)
             ma = again["dx"].get_method(em)
-        obs = observe(ma, em, special=getattr(mod, "SPECIAL", False))
+        obs = observe(ma, em, special=getattr(mod, "SPECIAL", False), alt=getattr(mod, "ALT_TOPICS", ()))
         acc.n += 1
         acc.nt_disjoint += 1
         acc.count("reanalyses[%s]" % nth)
         res += [(key + ":second-analysis", "%s analysis of the same parsed code: %s" % (nth, msg))
-                for key, msg in mod.judge(acc, rm, obs, b.layout, ma=ma, gen=True)]
+                for key, msg in mod.judge(acc, rm, obs, b.layout, ma=ma, gen=True) + alt_violations(mod, obs)]
     return res
 
 
@@ -286,10 +361,11 @@ def _judge_history(mod, acc, b, vm, em, again=None):
         acc.count("histories_unaligned_switch_offset_not_judged")      # nop-skip domain of determineNext (not well-formed)
         return []
     ma2 = MethodAnalysis(vm, em)
-    obs = observe(ma2, em, special=getattr(mod, "SPECIAL", False))
+    obs = observe(ma2, em, special=getattr(mod, "SPECIAL", False), alt=getattr(mod, "ALT_TOPICS", ()))
     if len(acc.outcomes) < 100000:
         acc.outcomes.add(h8(("h", b.edit, signature(obs))))
-    return [(key + ":after:set_instructions", msg) for key, msg in mod.judge(acc, rm, obs, layout, ma=ma2, gen=True)]
+    return [(key + ":after:set_instructions", msg)
+            for key, msg in mod.judge(acc, rm, obs, layout, ma=ma2, gen=True) + alt_violations(mod, obs)]
 
 
 class _FakePool:
@@ -300,8 +376,26 @@ class _FakePool:
     def proto(self, *a): return 0
 
 
+_DECOY = []
+
+
+def decoy(xref=False):
+    """Decoy history INSIDE the judging path (run_shard and replay alike): a fixed different input under the same class /
+    method / field names goes through the same API calls first; its results are ignored."""
+    if not _DECOY:
+        _DECOY.append(M.decoy_dex())
+    vm, dx, ems = load(_DECOY[0], xref)
+    for em in ems.values():
+        ma = dx.get_method(em)
+        for b in ma.get_basic_blocks().get():
+            b.get_exception_analysis()
+            list(b.get_instructions())
+
+
 def run_batch(mod, acc, builts):
     xref = getattr(mod, "XREF", False)
+    decoy(xref)
+    acc.count("decoy_runs")
     try:
         raw = M.wrap(builts)
         vm, dx, ems = load(raw, xref)
@@ -365,6 +459,8 @@ def ship_methods(raw):
 def run_ship(mod, ctx, acc, name, k, parts, only=None):
     from androguard.core import dex
     from androguard.core.analysis.analysis import MethodAnalysis
+    decoy()
+    acc.count("decoy_runs")
     raw = M.shipped_file(ctx.repo, name)
     vm = dex.DEX(raw)
     ems = {}
@@ -385,17 +481,17 @@ def run_ship(mod, ctx, acc, name, k, parts, only=None):
             continue
         try:
             ma = MethodAnalysis(vm, em)
-            obs = observe(ma, em, special=getattr(mod, "SPECIAL", False))
+            obs = observe(ma, em, special=getattr(mod, "SPECIAL", False), alt=getattr(mod, "ALT_TOPICS", ()))
         except Exception as e:  # noqa
             acc.n += 1
             acc.violation("analysis-raises:%s" % type(e).__name__, w, "%s %s%s: %s" % (cn, mn, desc, e))
             continue
-        viol = mod.judge(acc, rm, obs, "aligned", ma=ma, gen=False)
+        viol = mod.judge(acc, rm, obs, "aligned", ma=ma, gen=False) + alt_violations(mod, obs)
         if only is not None or ctx.thorough or n % SHIP_AGAIN_EVERY == 0:
             # no-op history on the shipped corpus: the same parsed code analysed a second time
             try:
                 ma2 = MethodAnalysis(vm, em)
-                obs2 = observe(ma2, em, special=getattr(mod, "SPECIAL", False))
+                obs2 = observe(ma2, em, special=getattr(mod, "SPECIAL", False), alt=getattr(mod, "ALT_TOPICS", ()))
                 viol = viol + [(key + ":second-analysis", "second analysis of the same parsed code: " + msg)
                                for key, msg in mod.judge(acc, rm, obs2, "aligned", ma=ma2, gen=False)]
                 acc.n += 1
@@ -416,6 +512,33 @@ def run_ship(mod, ctx, acc, name, k, parts, only=None):
     return msgs
 
 
+BIG = ("packed-500-cases", "sparse-500-cases", "far-offsets", "array-80000-bytes")
+
+
+def run_big(mod, acc, name):
+    """Field maxima: one fixed representative per large size / offset / count field (gen/methods.big_methods)."""
+    decoy()
+    for n, code, tries, handlers in M.big_methods():
+        if n != name:
+            continue
+        rm = R.from_bytes(code, tries, handlers)
+        w = {"big": name}
+        try:
+            vm, dx, ems = load(M.wrap_raw(code, tries, handlers), getattr(mod, "XREF", False))
+            em = ems[(M.CLS, "big", "()V")]
+            ma = dx.get_method(em)
+            obs = observe(ma, em, special=getattr(mod, "SPECIAL", False), alt=getattr(mod, "ALT_TOPICS", ()))
+        except Exception as e:  # noqa
+            acc.n += 1
+            acc.violation("analysis-raises:%s:big:%s" % (type(e).__name__, name), w, "%s: %s" % (type(e).__name__, e))
+            continue
+        acc.n += 1
+        acc.nt.add(h8(("big", name)))
+        acc.count("field_maxima_methods")
+        for key, msg in mod.judge(acc, rm, obs, "aligned", ma=ma, gen=False) + alt_violations(mod, obs):
+            acc.violation(key + ":big:" + name, w, "%s\n  method: field-maximum representative %s" % (msg, name))
+
+
 # --------------------------------------------------------------------------------------------------- entry points
 def run_shard_common(mod, ctx, shard):
     acc = Acc()
@@ -432,6 +555,8 @@ def run_shard_common(mod, ctx, shard):
             run_batch(mod, acc, batch)
     elif shard[0] == "ship":
         run_ship(mod, ctx, acc, shard[1], shard[2], shard[3])
+    elif shard[0] == "big":
+        run_big(mod, acc, shard[1])
     else:
         mod.run_extra(ctx, acc, shard)
     return acc
@@ -444,6 +569,8 @@ def replay_common(mod, ctx, w):
             mod.run_extra(ctx, acc, ("shipx", w["shipped"]), only=tuple(w["method"]))
         else:
             run_ship(mod, ctx, acc, w["shipped"], 0, 1, only=tuple(w["method"]))
+    elif "big" in w:
+        run_big(mod, acc, w["big"])
     else:
         b = M.from_witness(w)
         if b is None:
